@@ -37,6 +37,29 @@ type Loaded struct {
 	genFiles      map[string]string    // generated overlay files (path -> content) for replay
 
 	aliasMu sync.Mutex
+
+	knownFields map[string]map[string]bool // "pkg.Type" -> modelled fields
+}
+
+// unmodelled reports whether the location (object of named struct type, path)
+// lies in a field of that struct the contracts do not know.
+func (ld *Loaded) unmodelled(o *Object, path []PE) bool {
+	if o == nil || o.T == nil || len(path) == 0 || path[0].Index != nil {
+		return false
+	}
+	nt, ok := o.T.(*types.Named)
+	if !ok {
+		return false
+	}
+	st, ok := nt.Underlying().(*types.Struct)
+	if !ok {
+		return false
+	}
+	kf, ok := ld.knownFields[nt.Obj().Pkg().Name()+"."+nt.Obj().Name()]
+	if !ok {
+		return false
+	}
+	return !kf[st.Field(path[0].Field).Name()]
 }
 
 // pkgDirs maps package import paths to the spec directory names under /verif/spec.
@@ -61,7 +84,7 @@ func relDir(path string) string {
 func Load(repo, verif string, patterns []string) (*Loaded, error) {
 	ld := &Loaded{repo: repo, verif: verif, fi: map[*ssa.Function]*fnInfo{}, logOnlyMemo: map[*ssa.Function]bool{},
 		contracts: map[string]*Contract{}, pkgs: map[string]*ssa.Package{}, ppkgs: map[string]*packages.Package{},
-		ghostT: map[string]types.Type{}, ghostField: map[string]int{}, genFiles: map[string]string{}}
+		ghostT: map[string]types.Type{}, ghostField: map[string]int{}, genFiles: map[string]string{}, knownFields: map[string]map[string]bool{}}
 	overlay := map[string][]byte{}
 	for path, sd := range specDirs {
 		dir := filepath.Join(repo, relDir(path))
@@ -99,6 +122,12 @@ func Load(repo, verif string, patterns []string) (*Loaded, error) {
 			os.WriteFile(gen, []byte(src), 0o644)
 			ld.genFiles[dst] = gen
 			ld.cfiles = append(ld.cfiles, cf)
+			for tn, fs := range cf.Fields {
+				ld.knownFields[filepath.Base(path)+"."+tn] = fs
+				if cf.PkgName != "" {
+					ld.knownFields[cf.PkgName+"."+tn] = fs
+				}
+			}
 			for _, c := range cf.Contracts {
 				pkgName := filepath.Base(path)
 				if cf.PkgName != "" {
@@ -127,7 +156,7 @@ func Load(repo, verif string, patterns []string) (*Loaded, error) {
 	if len(errs) > 0 {
 		return nil, fmt.Errorf("load errors:\n  %s", strings.Join(errs, "\n  "))
 	}
-	prog, spkgs := ssautil.AllPackages(pkgs, ssa.BuilderMode(0))
+	prog, spkgs := ssautil.AllPackages(pkgs, ssa.GlobalDebug)
 	prog.Build()
 	ld.prog = prog
 	for i, p := range pkgs {
